@@ -58,8 +58,14 @@ impl Backend {
 
 pub const FLUSH_BASE_MS: u64 = 4_000_000_000_000;
 
-fn db_config() -> DBConfig {
-    DBConfig { name: "db".into(), description: String::new(), storage: StorageConfig { compress_level: 0, ..Default::default() }, lock: None }
+fn db_config(small_buckets: bool) -> DBConfig {
+    let mut storage = StorageConfig { compress_level: 0, ..Default::default() };
+    if small_buckets {
+        // index buckets overflow after a handful of postings: flushes write several bucket
+        // objects, compaction really merges
+        storage.bucket_overload_size = 48;
+    }
+    DBConfig { name: "db".into(), description: String::new(), storage, lock: None }
 }
 
 pub fn canon_err(e: &DBError) -> String {
@@ -69,9 +75,15 @@ pub fn canon_err(e: &DBError) -> String {
     match e {
         DBError::NotFound { .. } => "err:notfound".into(),
         DBError::AlreadyExists { .. } => "err:exists".into(),
+        DBError::Precondition { .. } => "err:precond".into(),
         _ => {
             let s = format!("{e:?}");
-            if s.contains("injected fault") { "err:io".into() } else { format!("err:other({})", s.replace('\n', " ").chars().take(160).collect::<String>()) }
+            if s.contains("injected fault") {
+                "err:io".into()
+            } else if s.contains("Precondition {") {
+                // a conditional PUT of an index manifest rejected (wrapped in DBError::Index)
+                "err:precond".into()
+            } else { format!("err:other({})", s.replace('\n', " ").chars().take(160).collect::<String>()) }
         }
     }
 }
@@ -85,6 +97,10 @@ pub struct Real {
     pub c: Option<Arc<Collection>>,
     last_real_ms: u64,
     log_pos: usize,
+    small_buckets: bool,
+    /// the open callback creates (true) / removes (false) a B-tree index on `n`
+    pub want_extra: bool,
+    pub same_process_reopens: u64,
 }
 
 pub enum OpenOutcome {
@@ -96,10 +112,10 @@ pub enum OpenOutcome {
 
 impl Real {
     /// a fresh store; nothing created yet
-    pub fn blank(backend: Backend) -> Real {
+    pub fn blank(backend: Backend, small_buckets: bool) -> Real {
         let mem = Arc::new(InMemory::new());
         let (vs, ctl) = VStore::wrap(mem.clone());
-        Real { backend, mem, base: Arc::new(vs), ctl, db: None, c: None, last_real_ms: 0, log_pos: 0 }
+        Real { backend, mem, base: Arc::new(vs), ctl, db: None, c: None, last_real_ms: 0, log_pos: 0, small_buckets, want_extra: false, same_process_reopens: 0 }
     }
 
     /// the store a freshly booted process would build (wrapper caches start empty)
@@ -120,22 +136,40 @@ impl Real {
                 self.last_real_ms = now;
                 return;
             }
-            std::thread::sleep(std::time::Duration::from_micros(200));
+            std::thread::sleep(std::time::Duration::from_micros(100));
         }
     }
 
-    async fn open_raw(&mut self, allow_recreate: bool) -> OpenOutcome {
+    /// end of a wall-clock event (no waiting; the next event's `tick` waits if it must)
+    fn stamp(&mut self) {
+        self.last_real_ms = self.last_real_ms.max(unix_ms());
+    }
+
+    /// `same_process`: keep the `AndaDB` instance and let `open_or_create_collection` discard the
+    /// poisoned / closed handle and reload (database.rs `open_collection_with_schema`); otherwise
+    /// a fresh process: new `AndaDB::connect`
+    async fn open_raw(&mut self, allow_recreate: bool, same_process: bool) -> OpenOutcome {
         self.c = None;
+        let kept = if same_process { self.db.take() } else { None };
         self.db = None;
         self.tick();
-        let db = match AndaDB::connect(self.top(), db_config()).await {
-            Ok(db) => db,
-            Err(e) => return OpenOutcome::Err(canon_err(&e)),
+        let want_extra = self.want_extra;
+        let db = match kept {
+            Some(db) => db,
+            None => match AndaDB::connect(self.top(), db_config(self.small_buckets)).await {
+                Ok(db) => db,
+                Err(e) => return OpenOutcome::Err(canon_err(&e)),
+            },
         };
         let open = async |db: &AndaDB| {
             db.open_or_create_collection(DocR::schema()?, CollectionConfig { name: "c".into(), description: String::new() }, async |c| {
                 c.create_btree_index_nx(&["a"]).await?;
                 c.create_bm25_index_nx(&["t"]).await?;
+                if want_extra {
+                    c.create_btree_index_nx(&["n"]).await?;
+                } else {
+                    c.remove_btree_index(&["n"]).await?;
+                }
                 Ok(())
             })
             .await
@@ -153,18 +187,21 @@ impl Real {
                     Err(e) => return OpenOutcome::Err(format!("recreate: {}", canon_err(&e))),
                 }
             }
-            Err(e) => return OpenOutcome::Err(canon_err(&e)),
+            Err(e) => {
+                self.stamp();
+                return OpenOutcome::Err(canon_err(&e));
+            }
         };
-        self.tick();
+        self.stamp();
         self.db = Some(db);
         self.c = Some(c);
         outcome
     }
 
     /// created, registered and flushed collection; faults, counters and log cleared
-    pub async fn setup(backend: Backend) -> Result<Real, String> {
-        let mut r = Real::blank(backend);
-        match r.open_raw(false).await {
+    pub async fn setup(backend: Backend, small_buckets: bool) -> Result<Real, String> {
+        let mut r = Real::blank(backend, small_buckets);
+        match r.open_raw(false, false).await {
             OpenOutcome::Ok => {}
             OpenOutcome::Recreated => unreachable!(),
             OpenOutcome::Err(e) => return Err(format!("setup: {e}")),
@@ -176,7 +213,7 @@ impl Real {
 
     pub async fn open_after_create_crash(&mut self) -> OpenOutcome {
         self.ctl.power_on();
-        self.open_raw(true).await
+        self.open_raw(true, false).await
     }
 
     pub fn off(&self) -> bool {
@@ -199,9 +236,20 @@ impl Real {
                 self.ctl.disarm();
                 return "ok".into();
             }
-            Line::Reopen(_) => {
+            Line::WantIx(b) => {
+                self.want_extra = *b;
+                return "ok".into();
+            }
+            Line::Reopen(n) => {
+                // every other reopen of a handle that is poisoned or closed while the power stayed
+                // on happens inside the same process (same `AndaDB`), the rest after a process restart
+                let same_process = *n % 2 == 0
+                    && !self.off()
+                    && self.db.is_some()
+                    && self.c.as_ref().is_some_and(|c| c.is_poisoned() || matches!(c.state(), anda_db::error::CollectionState::Closed));
                 self.ctl.power_on();
-                return match self.open_raw(false).await {
+                self.same_process_reopens += same_process as u64;
+                return match self.open_raw(false, same_process).await {
                     OpenOutcome::Ok | OpenOutcome::Recreated => "ok".into(),
                     OpenOutcome::Err(e) => {
                         self.c = None;
@@ -234,12 +282,23 @@ impl Real {
             }
             Line::Remove(id) => match c.remove(*id).await {
                 Ok(None) => "ok none".into(),
-                Ok(Some(doc)) => match TryInto::<DocR>::try_into(doc) {
+                Ok(Some(doc)) => match doc.try_into::<DocR>() {
                     Ok(d) => d.to_c().map(|d| d.show()).unwrap_or_else(|| "ok doc ?".into()),
                     Err(e) => format!("err:other(decode {e:?})"),
                 },
                 Err(e) => canon_err(&e),
             },
+            Line::SaveExt(n) => match c.save_extension("k".to_string(), Fv::U64(*n)).await {
+                Ok(()) => "ok".into(),
+                Err(e) => canon_err(&e),
+            },
+            Line::Compact(ix) => {
+                let r = if *ix == 0 { c.compact_btree_index(&["a"]).await } else { c.compact_bm25_index(&["t"]).await };
+                match r {
+                    Ok(()) => "ok".into(),
+                    Err(e) => canon_err(&e),
+                }
+            }
             Line::Flush(now) => match c.flush(FLUSH_BASE_MS + *now).await {
                 Ok(b) => format!("ok {b}"),
                 Err(e) => canon_err(&e),
@@ -250,7 +309,7 @@ impl Real {
                     Some(db) => db.close_collection("c").await,
                     None => return "err:nohandle".into(),
                 };
-                self.tick();
+                self.stamp();
                 match r {
                     Ok(()) => "ok".into(),
                     Err(e) => canon_err(&e),
@@ -300,6 +359,34 @@ impl Real {
         }
     }
 
+    /// durable facts read straight from the backend (plain backend only) and from the handle:
+    /// ids of the document objects, number of intent objects, storage checkpoint, max_document_id
+    pub async fn state(&self) -> Option<String> {
+        use futures::StreamExt;
+        if self.backend != Backend::Mem {
+            return None;
+        }
+        let c = self.c.as_ref()?;
+        let mut docs = vec![];
+        let mut intents = 0usize;
+        let mut st = self.mem.list(Some(&Path::from("db/c")));
+        while let Some(m) = st.next().await {
+            let p = m.ok()?.location.to_string();
+            if let Some(f) = p.strip_prefix("db/c/data/") {
+                docs.push(f.strip_suffix(".cbor")?.parse::<u64>().ok()?);
+            } else if p.starts_with("db/c/mutation_intents/") {
+                intents += 1;
+            }
+        }
+        docs.sort();
+        Some(format!(
+            "state docs={} intents={intents} cp={} maxid={}",
+            if docs.is_empty() { "-".to_string() } else { vh_common::join(&docs, ",") },
+            c.storage_stats().check_point,
+            c.max_document_id()
+        ))
+    }
+
     pub fn ids(&self) -> Option<Vec<u64>> {
         let c = self.c.as_ref()?;
         let mut v = c.ids();
@@ -324,6 +411,10 @@ impl Real {
             0 => match c.get_btree_index(&["a"]) {
                 Ok(v) => v.query_with(&Fv::U64(key), |ids| Some(ids.clone())).unwrap_or_default(),
                 Err(e) => return canon_err(&e),
+            },
+            2 => match c.get_btree_index(&["n"]) {
+                Ok(v) => v.query_with(&Fv::U64(key), |ids| Some(ids.clone())).unwrap_or_default(),
+                Err(_) => return "noindex".into(),
             },
             _ => match c.get_bm25_index(&["t"]) {
                 Ok(v) => v.search(WORDS[key as usize], 100_000, None).into_iter().map(|(id, _)| id).collect(),
